@@ -27,6 +27,9 @@ ASSUMPTIONS = ["attribute values contain no newline (outside the quantifier)",
 
 NAMES = ["name", "keep-sorted", "data-x", "a", "A1", "x_y", "ключ", "名前", "é", "n0", "0n", "-lead", "_u", "keep-unique", "Z-9_z"]
 UNQUOTED = ["v", "asc", "a-b_c", "123", "значение", "値", "é1", "-", "_"]
+NAME_CHARS = list("azAZ09-_") + list("\u00e9\u00df\u0130\u01c5\u00aa\u044f\u03a9\u05d0\u0639\u0915\u540d\u3042\uac00\U00010400") + \
+             list("\u00b2\u00b9\u00bd\u00be\u0663\u06f7\u096f\uff13\u2163\u2177\u2460\u2080\u3007\u4e09\U0001d7d8")
+assert all(__import__("unicodedata").category(c)[0] in "LN" or c in "-_" for c in NAME_CHARS)
 QCHARS = ["word", " ", ">", "<", "=", "/", "a>b", "<b>", "</block>", "<block x>", "k=v", "é", "日本", "\U0001F600", "(", ")", "[x]", "{y}", "*", "#", "\\",
           "&quot;", "%", ";", ":", ",", ".", "!", "?", "|", "~", "`", "$", "^", "+", "\t", "--", "a--b", "//", "#", "/*"]
 FOREIGN = ["<b>", "</b>", "<a href=x>", "<br/>", "<i>", "<p class=\"c\">", "</p>", "<x-block>", "<b lock>"]
@@ -35,7 +38,9 @@ LOOKALIKES = ["<blockquote>", "</blockquote>", "<block/>", "<Block>", "<BLOCK na
               "<\\block>", "<block name=\"a\" / >", "<block,>", "<block name=\"x\"/>", "<block name=x/>", "<block keep-sorted/>", "<block name='x' />", "</ blockquote >", "<block name=x y=>z>"[:0] or "<block.>",
               "<block name=\"x\">", "<bloc k>", "<block name=\"x\" <", "<_block>", "<block a=\"1\"b=\"2\">", "<block a='1'b>"]
 UNCLOSED = ["<block name=\"never closed", "<block name='never closed", "<block a=\"1\" b=\"2", "<block name=\"x\" c='"]
-END_TAGS = ["</block>", "</block>", "</ block >", "< / block>", "</block  >", "<  /  block  >", "</\tblock>"]
+END_TAGS = ["</block>", "</block>", "</ block >", "< / block>", "</block  >", "<  /  block  >", "</\tblock>",
+            # line breaks at each of the three gaps (block-comment forms only)
+            "</\nblock>", "</block\n>", "<\n/block>", "</\n   block >", "<\n/\nblock\n>", "</\r\nblock>"]
 
 HOSTS = [
     ("f.rs", C_LINE), ("f.py", HASH), ("f.js", C_BLOCK), ("f.java", C_BLOCK_STAR), ("f.html", XML_C), ("f.c", C_BLOCK),
@@ -98,6 +103,14 @@ def gen_tag(r, form, multiline_ok):
     src = "<block"
     exp = {}
     names = [r.choice(NAMES) for _ in range(n)]
+    for i in range(n):
+        if r.random() < 0.3:
+            # a name composed from the whole class the grammar admits: letters and numerals of any script (decimal digits, superscripts,
+            # fractions, Roman and circled numerals), `-` and `_`
+            names[i] = "".join(r.choice(NAME_CHARS) for _ in range(r.choice([1, 2, 3, 6])))
+            while "--" in names[i]:          # `--` may not occur inside an XML comment (and `-->` would end an HTML one)
+                names[i] = names[i].replace("--", "-")
+            feats.add("composed-name")
     if n >= 2 and r.random() < 0.25:
         names[-1] = names[0]
         feats.add("duplicate")
@@ -228,6 +241,8 @@ def build(r, fname, form):
             et = "</block>"
         if et != "</block>":
             feats.add("end-tag-whitespace")
+        if "\n" in et:
+            feats.add("end-tag-line-break")
         b.tag("end", et)
         glued = form.kind == "line" and form.family != "md" and r.random() < 0.25
         if glued:
